@@ -218,6 +218,7 @@ def compose(v):
     (expected rows, exempt {(o, attr)}, problems)"""
     state = {o: dict(r) for o, r in v.rows[0].items()}
     exempt, problems = set(), []
+    v.culprits = {}          # (o, attr) -> classes of the sessions that committed a value computed from a stale read
     order = sorted((v.commit_steps[t][-1], t) for t in range(v.n) if v.ok[t] and v.commit_steps[t])
     for _, t in order:
         view = {o: dict(r) for o, r in state.items()}
@@ -229,6 +230,8 @@ def compose(v):
                                      'T%d committed an update of A[%s], which an earlier committed session deleted' % (t, o)))
                     continue
                 view[o][attr] = K(t, attr) if src is None else F(t, attr, view[o][src])
+                if view[o][attr] != new:
+                    v.culprits.setdefault((o, attr), set()).add('%s from %s' % (sclass(v.progs[t]), 'itself' if src == attr else 'another ' + KIND[src] + ' attribute'))
                 if src is not None and src in CONTROL_OCE: exempt.add((o, attr))
             elif d[0] == 'del':
                 view.pop(d[1], None)
@@ -249,9 +252,7 @@ def mon_composition(v, counters):
                 if (o, attr) in exempt:
                     counters['control_lost_update'] = counters.get('control_lost_update', 0) + 1
                     continue
-                ws = [(t, d) for t in range(v.n) if v.ok[t] for _, d in v.notes[t] if d[0] == 'w' and d[1] == o and d[2] == attr]
-                srcs = sorted(set('blind' if d[4] is None else ('same' if d[4] == attr else 'other:' + KIND[d[4]]) for _, d in ws))
-                out.append(('lost-update|%s|from=%s|sessions=%s' % (KIND[attr], ','.join(srcs), ','.join(sorted(set(sclass(v.progs[t]) for t, _ in ws)))),
+                out.append(('lost-update|%s|committed over a stale read by: %s' % (KIND[attr], '; '.join(sorted(v.culprits.get((o, attr), ()))) or 'unknown'),
                             'A[%s].%s: composition in commit order gives %r, database has %r'
                             % (o, attr, expected[o][attr], v.final[o][attr])))
     return out
